@@ -225,6 +225,13 @@ def conv_mid(etype="slotted", acc=1, cap=3, slot=2, iat=(1, 1, 1, 1, 1, 1, 1, 1)
             "edges": [_e("buffer", 0, 1, cap=2), _e(etype, 1, 2, cap=cap, slot=slot, acc=acc), _e("buffer", 2, 3, cap=2)]}
 
 
+def conv_conv(etype="slotted", acc=1, caps=(2, 3), slots=(2, 4), iat=(1,) * 8, pd=(1,), T=240):
+    """two conveyors in series with a machine in between: every item rides both (and carries the first ride's stamps)"""
+    return {"Q": Q, "T": T, "family": "S-conv-M-conv-K", "expect": "valid", "drains": True,
+            "nodes": [_n("source", blocking=True, iat=list(iat)), _n("machine", pd=list(pd)), _n("sink")],
+            "edges": [_e(etype, 0, 1, cap=caps[0], slot=slots[0], acc=acc), _e(etype, 1, 2, cap=caps[1], slot=slots[1], acc=acc)]}
+
+
 def invalid_configs():
     out = []
     c = line_sbk(cap=0); c.update(expect="invalid", family="invalid:capacity0", why="non-positive capacity"); out.append(c)
@@ -362,6 +369,9 @@ def families(tier):
         C.append(conv_mid(etype, acc, cap=2, slot=4, pd2=(3,), iat=(2,) * 8))
         C.append(conv_mid(etype, acc, cap=4, slot=1, pd=(0,), pd2=(2, 6), iat=(0, 0, 0, 3, 0, 0, 5)))
     C.append(conv_mid("slotted", 1, cap=3, slot=2, wc2=2, pd2=(7,), iat=(1,) * 10))
+    for etype, acc in itertools.product(["conveyor", "slotted"], [0, 1]):
+        C.append(conv_conv(etype, acc))
+        C.append(conv_conv(etype, acc, caps=(3, 2), slots=(1, 3), iat=(0, 0, 0, 5, 0, 0), pd=(0,)))
     # two workers of one machine ask for space on the conveyor in the same instant
     for etype, acc in itertools.product(["conveyor", "slotted"], [0, 1]):
         C.append(conv_mid(etype, acc, wc=2, pd=(3,), iat=(0,) * 6))
